@@ -235,6 +235,36 @@ func runC14(c *Ctx, r *Report) {
 	})
 	// (looked up in the function as written: the helper-transparent view has the accessor inlined)
 	joinSrc := orig(join)
+	// the type-switch form: switch other := otherLog.(type) { case *IPFSLog: … }
+	for _, jf := range []*Fn{join, joinSrc} {
+		jf := jf
+		walkNoLit(jf.Body, func(n ast.Node) bool {
+			ts, ok := n.(*ast.TypeSwitchStmt)
+			if !ok {
+				return true
+			}
+			as, ok := ts.Assign.(*ast.AssignStmt)
+			if !ok || len(as.Rhs) != 1 {
+				return true
+			}
+			ta, ok := ast.Unparen(as.Rhs[0]).(*ast.TypeAssertExpr)
+			if !ok {
+				return true
+			}
+			if id, ok := ast.Unparen(ta.X).(*ast.Ident); !ok || p.ObjOf(jf, id) != paramObj(joinSrc, 0) {
+				return true
+			}
+			for _, cl := range ts.Body.List {
+				cc := cl.(*ast.CaseClause)
+				if len(cc.List) == 1 && namedOf(p.TypeOf(jf, cc.List[0])) == p.Named("", "IPFSLog") {
+					if o := jf.Pkg.TypesInfo.Implicits[cc]; o != nil {
+						asserted[o] = true
+					}
+				}
+			}
+			return true
+		})
+	}
 	walkNoLit(joinSrc.Body, func(n ast.Node) bool {
 		as, ok := n.(*ast.AssignStmt)
 		if !ok || len(as.Rhs) != 1 {
